@@ -118,6 +118,11 @@ func (d *Data) Verify(untrustedData *Data) error {
 // Validate performs basic validation of a block.
 // this is used to implement the header interface for go header
 func (d *Data) Validate() error {
+	// ChainID, Height and Time are read from the metadata by go-header right after this call (and by the
+	// block manager when it takes the item from the store): a received item without metadata must not get there
+	if d.Metadata == nil {
+		return errors.New("data has no metadata")
+	}
 	return nil
 }
 
